@@ -30,6 +30,8 @@ package pool
 import (
 	"fmt"
 	"sync"
+
+	"github.com/thushan/olla/internal/verifhook"
 )
 
 type Resettable interface {
@@ -68,6 +70,12 @@ func NewLitePool[T any](newFn func() T) (*Pool[T], error) {
 }
 
 func (p *Pool[T]) Get() T {
+	if verifhook.Enabled {
+		if v, ok := verifhook.PoolGet(p); ok {
+			//nolint:forcetypeassert // only objects of type T are ever put
+			return v.(T)
+		}
+	}
 	//nolint:forcetypeassert // safe due to validated New
 	return p.pool.Get().(T)
 }
@@ -75,6 +83,12 @@ func (p *Pool[T]) Get() T {
 func (p *Pool[T]) Put(v T) {
 	if r, ok := any(v).(Resettable); ok {
 		r.Reset()
+	}
+	if verifhook.Enabled {
+		if verifhook.PoolPut(p, v) {
+			verifhook.Yield("pool.put")
+			return
+		}
 	}
 	p.pool.Put(v)
 }
